@@ -895,7 +895,7 @@ SEQUENCE_encode_xer(const asn_TYPE_descriptor_t *td, const void *sptr,
                 *(const void *const *)((const char *)sptr + elm->memb_offset);
             if(!memb_ptr) {
                 assert(tmp_def_val == 0);
-                if(elm->default_value_set) {
+                if(elm->default_value_set && !xcan) {
                     if(elm->default_value_set(&tmp_def_val)) {
                         ASN__ENCODE_FAILED;
                     } else {
@@ -912,6 +912,11 @@ SEQUENCE_encode_xer(const asn_TYPE_descriptor_t *td, const void *sptr,
         } else {
             memb_ptr = (const void *)((const char *)sptr + elm->memb_offset);
         }
+
+        /* CANONICAL-XER (X.693 #9): default values are not encoded */
+        if(xcan && elm->default_value_cmp
+           && elm->default_value_cmp(memb_ptr) == 0)
+            continue;
 
         if(!xcan) ASN__TEXT_INDENT(1, ilevel);
         ASN__CALLBACK3("<", 1, mname, mlen, ">", 1);
